@@ -248,3 +248,27 @@ func minimalWitness(k *h.Case, orig *spec.Program, optimize bool, o vmCheckOpts)
 	fails()
 	return spec.Source(orig), lastOut
 }
+
+// shrinkFor reduces prog while eval (run on a dry case against the canonical
+// layout of the current tree) still reports a violation with the given key, and
+// returns the reduced source plus the message of that violation.
+func shrinkFor(k *h.Case, prog *spec.Program, key string, eval func(kk *h.Case, src string)) (string, string) {
+	lastMsg := ""
+	fails := func() bool {
+		kk, pr := k.Dry()
+		eval(kk, spec.Source(prog))
+		for i, kx := range pr.Keys {
+			if kx == key {
+				lastMsg = pr.Msgs[i]
+				return true
+			}
+		}
+		return false
+	}
+	if !fails() {
+		return "", ""
+	}
+	shrinkProgram(prog, fails, 300)
+	fails()
+	return spec.Source(prog), lastMsg
+}
